@@ -210,6 +210,8 @@ pub struct Ctx<'a> {
 pub struct Env {
     pub plugin: Option<chess_api::ChessApiRef>,
     pub plugin_path: String,
+    /// lean mode (the Miri leg): sessions run without reference models from the first ply on
+    pub lean: bool,
 }
 
 impl<'a> Ctx<'a> {
